@@ -1758,6 +1758,159 @@ def translate_mv(repo):
     return head + "\n".join(out) + "\nend Ixai.Gen\n", [MV_FILE], sha
 
 
+# ----------------------------------------------------------------------------------------------------------------
+# TreeStorage reservoir bookkeeping (ixai/storage/tree_storage.py: `_update_data_reservoirs`, `_delete_outdated_reservoirs`) for ONE
+# feature, over the tree oracle of Model/Tree.lean: river's tree is not modelled, so
+#   self._storage_x[f]._root                    -> the oracle handle (unit)
+#   self.get_path_through_tree(root, x_i)        -> parameter `leaf`       (the id of the routed leaf)
+#   get_all_tree_paths(root)                     -> parameter `allLeaves`  (the ids of all current leaves)
+#   self.data_reservoirs[f] (also through a local alias) -> the mutable state `rs : Reservoirs K P`
+#   k in d / k not in d -> (findR d k).isSome ; d[k] = GeometricReservoirStorage(size=self._leaf_reservoir_length, store_targets=False,
+#   constant_probability=1.0) -> append/overwrite with the GENERATED kernel's init ; list(d.keys()) -> d.map Prod.fst ;
+#   del d[k] -> filter ; d[k].update(x) -> the generated kernel's update, threading the draw source (a missing key: no insertion)
+# Output: `do`-blocks over `StateM (Rnd K)`.
+# ----------------------------------------------------------------------------------------------------------------
+TREE_FILE = "ixai/storage/tree_storage.py"
+
+
+class TreeFn(Fn):
+    supports_helpers = False
+
+    def is_state(self, e):
+        if isinstance(e, ast.Subscript) and ast.unparse(e.value) == "self.data_reservoirs" and isinstance(e.slice, ast.Name) \
+                and e.slice.id == "feature_name":
+            return True
+        return isinstance(e, ast.Name) and e.id in self.env and self.env[e.id].kind == "alias"
+
+    def expr(self, e, allow_eff=True):
+        if self.is_state(e):
+            return "rs", "Rs", False
+        if isinstance(e, ast.Attribute) and ast.unparse(e) == "self._leaf_reservoir_length":
+            return "L", "Nat", False
+        if isinstance(e, ast.Attribute) and e.attr == "_root" and ast.unparse(e.value) == "self._storage_x[feature_name]":
+            return "()", "Root", False
+        if isinstance(e, ast.Compare) and len(e.ops) == 1 and isinstance(e.ops[0], (ast.In, ast.NotIn)):
+            k, kt, _ = self.expr(e.left)
+            c, ct, _ = self.expr(e.comparators[0])
+            neg = "!" if isinstance(e.ops[0], ast.NotIn) else ""
+            if norm(ct) == "Rs" and norm(kt) == "Nat":
+                return f"({neg}(findR {c} {k}).isSome)", "Bool", False
+            if norm(ct) == "ListNat" and norm(kt) == "Nat":
+                return f"({neg}({c}).contains {k})", "Bool", False
+            self.err(e, "membership test on an unsupported container")
+        return super().expr(e, allow_eff)
+
+    def call(self, e, allow_eff):
+        name = ast.unparse(e.func)
+        if name == "self.get_path_through_tree" and len(e.args) == 2:
+            r, rt, _ = self.expr(e.args[0])
+            if norm(rt) != "Root" or ast.unparse(e.args[1]) != "x_i":
+                self.err(e, "the routed leaf of something other than (this feature's root, the reduced data point)")
+            return "leaf", "Nat", False
+        if name == "get_all_tree_paths" and len(e.args) == 1:
+            r, rt, _ = self.expr(e.args[0])
+            if norm(rt) != "Root":
+                self.err(e, "leaves of something other than this feature's tree")
+            return "allLeaves", "ListNat", False
+        if name == "list" and len(e.args) == 1 and isinstance(e.args[0], ast.Call) and isinstance(e.args[0].func, ast.Attribute) \
+                and e.args[0].func.attr == "keys" and self.is_state(e.args[0].func.value):
+            return "(rs.map Prod.fst)", "ListNat", False
+        if name == "GeometricReservoirStorage":
+            kw = {k.arg: ast.unparse(k.value) for k in e.keywords}
+            if e.args or kw != {"size": "self._leaf_reservoir_length", "store_targets": "False", "constant_probability": "1.0"}:
+                self.err(e, "a leaf reservoir with other than (size = leaf_reservoir_length, no targets, probability 1)")
+            return "(GeometricReservoirStorage.init L (some (1 : K)) false)", "Res", False
+        self.err(e, "unsupported call")
+
+    def assign(self, target, value, node, scope):
+        if isinstance(target, ast.Name) and self.is_state(value):
+            self.env[target.id] = Var(None, "Rs", kind="alias", field="rs")
+            scope["declared"].append(target.id)
+            return []
+        if isinstance(target, ast.Subscript) and self.is_state(target.value):
+            k, kt, _ = self.expr(target.slice)
+            v, vt, _ = self.expr(value)
+            if norm(kt) != "Nat" or norm(vt) != "Res":
+                self.err(node, "unsupported item assignment on the reservoirs")
+            return [f"rs := if (findR rs {k}).isSome then rs.map (fun e_ => if e_.1 == {k} then (e_.1, {v}) else e_) else rs ++ [({k}, {v})]"]
+        if isinstance(target, ast.Name):
+            v, t, _ = self.expr(value)
+            t = norm(t)
+            if t in ("Nat", "ListNat", "Root", "Bool"):
+                self.env[target.id] = Var(target.id, t)
+                scope["declared"].append(target.id)
+                return [f"let {target.id} := {v}"]
+        self.err(node, "unsupported assignment")
+
+    def stmt(self, s, scope):
+        if isinstance(s, ast.Delete) and len(s.targets) == 1 and isinstance(s.targets[0], ast.Subscript) and self.is_state(s.targets[0].value):
+            k, kt, _ = self.expr(s.targets[0].slice)
+            return [f"rs := rs.filter (fun e_ => !(e_.1 == {self.asNat(k, kt, s)}))"]
+        if isinstance(s, ast.Expr) and isinstance(s.value, ast.Call):
+            c = s.value
+            f = c.func
+            if isinstance(f, ast.Attribute) and f.attr == "update" and isinstance(f.value, ast.Subscript) and self.is_state(f.value.value) \
+                    and len(c.args) == 1 and ast.unparse(c.args[0]) == "x" and not c.keywords:
+                k, kt, _ = self.expr(f.value.slice)
+                k = self.asNat(k, kt, s)
+                return [f"match findR rs {k} with", "| none => pure ()", "| some r_ =>",
+                        "  let (r_new, rnd_new) := r_.update x () (← get)", "  set rnd_new",
+                        f"  rs := rs.map (fun e_ => if e_.1 == {k} then (e_.1, r_new) else e_)"]
+            if ast.unparse(f) == "self._delete_outdated_reservoirs" and len(c.args) == 2 and ast.unparse(c.args[0]) == "feature_name":
+                r, rt, _ = self.expr(c.args[1])
+                if norm(rt) != "Root":
+                    self.err(s, "clean-up for something other than this feature's tree")
+                return ["rs := TreeStorage._delete_outdated_reservoirs allLeaves rs"]
+            self.err(s, "unsupported expression statement")
+        if isinstance(s, (ast.If, ast.For)) or (isinstance(s, ast.Expr) and isinstance(s.value, ast.Constant)) or isinstance(s, ast.Assign):
+            return super().stmt(s, scope)
+        self.err(s, "unsupported statement")
+
+    def with_world(self, build):
+        return build()
+
+
+def translate_tree(repo):
+    text = open(os.path.join(repo, TREE_FILE)).read()
+    tree = ast.parse(text, filename=TREE_FILE)
+    cls = [n for n in tree.body if isinstance(n, ast.ClassDef) and n.name == "TreeStorage"]
+    if len(cls) != 1:
+        raise Unsupported(f"{TREE_FILE}: class TreeStorage not found")
+    methods = {n.name: n for n in cls[0].body if isinstance(n, ast.FunctionDef)}
+
+    class S_:
+        pass
+    src = S_()
+    src.find_method = lambda c, m: (None, None, None)
+    src.find_property = lambda c, m: None
+    out = []
+    for m, params in (("_delete_outdated_reservoirs", ["feature_name", "root_node"]), ("_update_data_reservoirs", ["feature_name", "x_i", "x"])):
+        if m not in methods:
+            raise Unsupported(f"{TREE_FILE}: TreeStorage.{m} not found")
+        fn = methods[m]
+        got = [a.arg for a in fn.args.args[1:]]
+        if got != params:
+            raise Unsupported(f"{TREE_FILE}:{fn.lineno}: signature of {m} is {got}, expected {params}")
+        f = TreeFn(src, "TreeStorage", fn, TREE_FILE)
+        f.deferred_types = []
+        if "root_node" in params:
+            f.env["root_node"] = Var("()", "Root")
+        body = f.block(fn.body, f.new_scope())
+        btxt = "\n".join("  " + x for x in body)
+        if m == "_delete_outdated_reservoirs":
+            out.append("def TreeStorage._delete_outdated_reservoirs {P : Type} (allLeaves : List Nat) (rs : Reservoirs K P) : Reservoirs K P := Id.run do\n"
+                       f"  let mut rs := rs\n{btxt}\n  return rs\n")
+        else:
+            out.append("def TreeStorage._update_data_reservoirs {P : Type} (L : Nat) (leaf : Nat) (allLeaves : List Nat) (x : P) (rs : Reservoirs K P) :\n"
+                       f"    StateM (Rnd K) (Reservoirs K P) := do\n  let mut rs := rs\n{btxt}\n  return rs\n")
+    sha = hashlib.sha256(text.encode()).hexdigest()[:16]
+    head = (f"/-\n  GENERATED by tools/py2lean_eff.py from {TREE_FILE} — do not edit.\n  sha256: {sha}\n"
+            "  The reservoir bookkeeping of TreeStorage for one feature, statement by statement, over the tree oracle (routed leaf, all leaves).\n-/\n"
+            "import IxaiVerif.Model.Tree\n\nnamespace Ixai.Gen\nopen Ixai Ixai.Tree\n\n"
+            "variable {K : Type} [Add K] [Sub K] [Mul K] [Div K] [NatCast K] [OfNat K 0] [OfNat K 1] [LE K] [DecidableLE K]\n\n")
+    return head + "\n".join(out) + "\nend Ixai.Gen\n", [TREE_FILE], sha
+
+
 class Source:
     def __init__(self, repo, files=None):
         self.repo = repo
@@ -1869,6 +2022,16 @@ def generate(repo=None, outdir=None):
         report["BatchSage"] = {"sources": rels, "sha256": sha, "changed": old != text}
     except (Unsupported, SyntaxError, OSError) as ex:
         report["BatchSage"] = {"sources": [BATCH_FILES["BatchSage"]], "sha256": "", "changed": False, "error": str(ex)}
+    try:
+        text, rels, sha = translate_tree(repo)
+        path = os.path.join(outdir, "TreeStorageBookkeeping.lean")
+        old = open(path).read() if os.path.exists(path) else None
+        if old != text:
+            with open(path, "w") as fh:
+                fh.write(text)
+        report["TreeStorageBookkeeping"] = {"sources": rels, "sha256": sha, "changed": old != text}
+    except (Unsupported, SyntaxError, OSError, IndexError, KeyError) as ex:
+        report["TreeStorageBookkeeping"] = {"sources": [TREE_FILE], "sha256": "", "changed": False, "error": str(ex)}
     try:
         text, rels, sha = translate_mv(repo)
         path = os.path.join(outdir, "MultiValueTracker.lean")
